@@ -36,50 +36,8 @@ theorem step_rel (b1 b2 : Buffer) (o1 o2 : Op) (h : BRel b1 b2) (hr : OpRel b1.m
   cases o1 <;> cases o2 <;> simp only [OpRel] at hr <;> try (exact hr.elim)
   · subst hr; exact setMode_rel _ _ _ h
   · exact write_rel _ _ _ _ h hr k1 (fun hh => k2 (h.mode ▸ hh))
-  · rename_i x1 x2
-    show BRel (b1.writeByte x1) (b2.writeByte x2)
-    rw [writeByte_eq b1 x1 h.i1, writeByte_eq b2 x2 h.i2]
-    have ⟨_, m1, hc, _⟩ := inv_startWrite b1 h.i1
-    have hm := h.mode
-    refine append_rel _ _ _ _ (startWrite_rel b1 b2 h) hc ?_ ?_ ?_
-    · rw [m1]
-      unfold PendRel
-      split
-      · rename_i hu
-        rw [if_pos hu] at hr
-        rw [← hm, hu, canonB_byteEff_unsafe, canonB_byteEff_unsafe]
-        by_cases h1 : x1 = LF
-        · simp [h1, hr.1 h1]
-        · have : ¬ x2 = LF := fun h2 => h1 (hr.2 h2)
-          simp [h1, this]
-      · rename_i hu
-        rw [if_neg hu] at hr
-        rw [← hm, hr]
-        split <;> rfl
-    · intro hh
-      rw [m1] at hh
-      have : byteEff b1.mode x1 = [x1] := by simp [byteEff, hh]
-      rw [this]; exact k1 hh
-    · intro hh
-      rw [m1] at hh
-      have : byteEff b2.mode x2 = [x2] := by simp [byteEff, ← hm, hh]
-      rw [this]; exact k2 (hm ▸ hh)
-  · rename_i r1 r2
-    show BRel (b1.write (encodeRune r1)) (b2.write (encodeRune r2))
-    refine write_rel _ _ _ _ h ?_ k1 (fun hh => k2 (h.mode ▸ hh))
-    unfold PendRel
-    split
-    · rename_i hu
-      rw [if_pos hu] at hr
-      rw [canonB_encodeRune, canonB_encodeRune]
-      by_cases h1 : r1 = 10
-      · simp [h1, hr.1 h1]
-      · have : ¬ r2 = 10 := fun h2 => h1 (hr.2 h2)
-        simp [h1, this]
-    · rename_i hu
-      rw [if_neg hu] at hr
-      rw [hr]
-      split <;> rfl
+  · exact writeByte_rel _ _ _ _ h hr k1 (fun hh => k2 (h.mode ▸ hh))
+  · exact writeRune_rel _ _ _ _ h hr k1 (fun hh => k2 (h.mode ▸ hh))
   · exact brel_init
   · show BRel b1.take.2 b2.take.2
     have ⟨_, o1, _⟩ := finalize_full b1 h.i1
